@@ -1,4 +1,5 @@
 import Fdo.Proto.Handover
+import Fdo.Proto.ServerProofs
 import Fdo.Facts
 /-
 C03 — ownership handover leaves device credential and stored voucher in agreement.
@@ -63,5 +64,39 @@ theorem code_facts :
     Fdo.Facts.allBefore "TO2Server.to2Done2" ["Equal", "ReplacementHmac", "Voucher", "RvInfo", "ReplacementGUID", "ownerKey"] "ReplaceVoucher" = true ∧
     Fdo.Facts.allBefore "DIServer.diDone" ["IncompleteVoucherHeader", "DeviceCertChain"] "AddVoucher" = true ∧
     Fdo.Facts.before "DIServer.setCredentials" "RvInfo" "SetIncompleteVoucherHeader" = true := by decide +kernel
+
+open Fdo.Proto.Server in
+/-- **The owner's voucher store is untouched before Done is accepted** (request-level server
+model, any history of requests of any sessions, any next request): the store changes only in a step
+whose request is TO2.Done and whose answer is Done2 — never in a step that is cut, refused or
+answered by an error. -/
+theorem owner_store_changes_only_at_accepted_done (v : List Nat) (reuse : Bool) (m : Nat) (history : List Req) (r : Req) :
+    let st := stateAfter (init v reuse m) history
+    (step st r).1.vouchers ≠ st.vouchers → r.typ = 70 ∧ (step st r).2.1 = 71 := by
+  intro st hne
+  have hinv : Inv st := stateAfter_inv (init_inv v reuse m) history
+  have sp := step_spec st r
+  generalize step st r = res at sp hne
+  cases sp with
+  | errMsg _ => exact absurd rfl hne
+  | unknown _ _ => exact absurd rfl hne
+  | startOk p s' resp eff _ _ hst hh =>
+    have := handle_start_no_effects hst hh
+    subst this
+    exact absurd rfl hne
+  | startErr _ _ _ _ _ => exact absurd rfl hne
+  | served p k s s' resp eff _ _ _ _ hs _ _ hh =>
+    have hresp := handle_resp hh
+    by_cases hrep : ∃ e ∈ eff, ∃ k' d, e = Effect.replaceVoucher k' d
+    · obtain ⟨e, he, k', d, rfl⟩ := hrep
+      have hn := handle_effects (hinv k s hs) hh _ he
+      have h70 : r.typ = 70 := hn.2.1
+      exact ⟨h70, by simp only; omega⟩
+    · exfalso
+      apply hne
+      exact applyEffs_vouchers_same _ eff (fun e he k' d heq => hrep ⟨e, he, k', d, heq⟩)
+  | rejected _ _ _ _ _ _ _ _ _ _ => exact absurd rfl hne
+  | noSession _ _ _ _ _ => exact absurd rfl hne
+
 
 end Fdo.Props.C03
